@@ -1043,6 +1043,7 @@ class Interpreter(BaseInterpreter[TContext, TEvent]):
         self,
         invocation: InvokeDefinition,
         service: Callable[..., Awaitable[Any]],
+        activation: Optional[int] = None,
     ) -> None:
         """Wrapper coroutine that runs an invoked service and handles its result.
 
@@ -1089,6 +1090,7 @@ class Interpreter(BaseInterpreter[TContext, TEvent]):
                 type=f"done.invoke.{invocation.id}",
                 data=result,
                 src=invocation.id,
+                activation=activation,
             )
             await self.send(done_event)
             logger.info(
@@ -1122,6 +1124,7 @@ class Interpreter(BaseInterpreter[TContext, TEvent]):
                 type=f"error.platform.{invocation.id}",
                 data=e,
                 src=invocation.id,
+                activation=activation,
             )
             # 🚨 If nothing handles the error event, the failure is
             #    unhandled and must be observable rather than merely logged.
@@ -1149,11 +1152,17 @@ class Interpreter(BaseInterpreter[TContext, TEvent]):
             service: The service implementation or MachineNode from logic.
             owner_id: The ID of the state that owns this invocation.
         """
+        # 🔢 The activation this invocation belongs to (see
+        #    `BaseInterpreter._schedule_state_tasks`).
+        activation = self._invoke_activations.get(
+            f"{owner_id}::{invocation.id}"
+        )
+
         # 🎭 Case 1: The service is a MachineNode, so we spawn it as an actor.
         if isinstance(service, MachineNode):
             # Create a task to manage the actor's lifecycle and handle onDone/onError.
             task = asyncio.create_task(
-                self._spawn_and_manage_actor(invocation, service)
+                self._spawn_and_manage_actor(invocation, service, activation)
             )
             self.task_manager.add(owner_id, task)
             return
@@ -1164,14 +1173,17 @@ class Interpreter(BaseInterpreter[TContext, TEvent]):
             # condition, ensuring the task is registered before the service
             # code runs.
             await asyncio.sleep(0)
-            await self._invoke_service_task(invocation, service)
+            await self._invoke_service_task(invocation, service, activation)
 
         task = asyncio.create_task(_invoke_wrapper())
         # Register the task with its owner for lifecycle management.
         self.task_manager.add(owner_id, task)
 
     async def _spawn_and_manage_actor(
-        self, invocation: InvokeDefinition, actor_machine: MachineNode
+        self,
+        invocation: InvokeDefinition,
+        actor_machine: MachineNode,
+        activation: Optional[int] = None,
     ) -> None:
         """Spawns, starts, and manages an actor, sending events on completion.
 
@@ -1234,6 +1246,7 @@ class Interpreter(BaseInterpreter[TContext, TEvent]):
                     type=f"error.platform.{invocation.id}",
                     data=failure,
                     src=invocation.id,
+                    activation=activation,
                 )
                 await self.send(error_event)
                 for plugin in self._plugins:
@@ -1245,6 +1258,7 @@ class Interpreter(BaseInterpreter[TContext, TEvent]):
                 type=f"done.invoke.{invocation.id}",
                 data=child_interpreter.context,  # Return child's final context
                 src=invocation.id,
+                activation=activation,
             )
             await self.send(done_event)
             for plugin in self._plugins:
@@ -1274,6 +1288,7 @@ class Interpreter(BaseInterpreter[TContext, TEvent]):
                 type=f"error.platform.{invocation.id}",
                 data=e,
                 src=invocation.id,
+                activation=activation,
             )
             await self.send(error_event)
             for plugin in self._plugins:
